@@ -1,8 +1,37 @@
-/- Driver ops for C10 (none yet). -/
+/- Driver ops for C10: the temperature-tuning fold on Float scores and temperatures. -/
 import Xrfmv.Drv.Common
+import Xrfmv.Model.Tune
+
+open Lean Xrfmv.Drv
 
 namespace Xrfmv.Drv.C10
+open Xrfmv.Tune Xrfmv.Gen.Temp
 
-def ops : List (String × Handler) := []
+/-- `{"op":"tune","maximizing":b,"current":null|bits,"cands":[bits],"scores":[bits]}`; `scores[i]` is the score of
+candidate `i` (the harness guarantees candidates with the same attribute carry the same score). -/
+def opTune : Handler := fun j => do
+  let mx ← j.getObjValAs? Bool "maximizing"
+  let cands ← getFs j "cands"
+  let scores ← getFs j "scores"
+  if scores.size ≠ cands.size then throw "bad-op: one score per candidate"
+  if scores.any Float.isNaN ∨ cands.any Float.isNaN then throw "bad-op: NaN"
+  let current : Option Float := match getF j "current" with
+    | .ok x => some x
+    | .error _ => none
+  -- score as a function of the attribute: look the attribute up among the candidates
+  let table : List (Option Float × Float) := (cands.toList.zip scores.toList).map fun (c, sc) => (attrOf c, sc)
+  let score : Option Float → Float := fun a =>
+    match table.find? (fun e => match e.1, a with
+        | none, none => true
+        | some x, some y => x == y
+        | _, _ => false) with
+    | some e => e.2
+    | none => 0.0
+  let r := tune mx current cands.toList score
+  let attrJ : Json := match r.bestAttr with | some t => fJson t | none => Json.null
+  pure <| Json.mkObj [("bestAttr", attrJ), ("bestScore", fJson r.bestScore),
+    ("results", toJson (r.results.map fun e => [floatToBits e.1, floatToBits e.2]))]
+
+def ops : List (String × Handler) := [("tune", opTune)]
 
 end Xrfmv.Drv.C10
